@@ -88,6 +88,16 @@ Definition fn_shape_eqb (a b : fn_listing) : bool :=
   String.eqb (fst a) (fst b) && list_eqb aop_shape_eqb (snd a) (snd b).
 Definition ops_match (src : list fn_listing) : bool := list_eqb fn_shape_eqb src model_listing.
 
+(* The free helper functions of mutex.hpp as the guard model has them (GuardModel.helper_op): guard(&m) builds
+   unique_lock(m) -- locking --, guard(dont_lock, &m) builds unique_lock(dont_lock, m) -- deferred, not owning.
+   Listed here (tag parameter type, class built, constructor tag) because the generated file Gen/SpinOrders.v, which
+   compares it with the source, imports this file. *)
+Definition model_guard_helpers : list (string * (string * string)) :=
+  [(""%string, ("unique_lock"%string, ""%string)); ("dont_lock_t"%string, ("unique_lock"%string, "dont_lock"%string))].
+Definition helper_eqb (a b : string * (string * string)) : bool :=
+  String.eqb (fst a) (fst b) && String.eqb (fst (snd a)) (fst (snd b)) && String.eqb (snd (snd a)) (snd (snd b)).
+Definition guard_helpers_match (src : list (string * (string * string))) : bool := list_eqb helper_eqb src model_guard_helpers.
+
 (* the memory orders the instrumented machine is parametrised by *)
 Record orders := mk_orders {
   o_t_draw : morder;        (* ticket lock(): fetch_add on next_ticket_ *)
